@@ -379,6 +379,11 @@ def gen_rules_text(r, k=None) -> str:
             ws = [ws[0][:-1] + "?"] + ws[1:]
         elif x < 0.68:
             ws = ["[" + ws[0][:1] + "z]" + ws[0][1:]] + ws[1:]
+        elif x < 0.76:
+            # a wildcard in the first token that has to absorb a blank: the pattern is matched against the whole joined command
+            joined = " ".join(ws)
+            i = r.randrange(len(joined))
+            ws = ["*" + joined[i:i + r.randint(2, 6)] + "*"] if r.chance(0.6) else ["*" + joined[i:]]
         pat = " ".join(ws)
         if r.chance(0.2):
             pat += r.pick(["|", " |"])
